@@ -30,6 +30,7 @@ type wireMsg struct {
 	frames  int
 	isRes   bool
 	tag     string
+	bad     bool // already reported / not judgeable: skip the rest of the message
 }
 
 type dirState struct {
@@ -159,7 +160,24 @@ func (o *wireOracle) frame(tf *TapFrame) {
 		}
 		m.frames++
 		m.last = tf
+		if m.bad {
+			if !f.More() {
+				delete(me.open, f.ID)
+			}
+			return
+		}
 		m.re.Add(f)
+		// a relay forwards what it received: once a byte was altered upstream, what the
+		// relay re-emits is not the relay's doing
+		if real && w.corruptFrame != nil && w.node(em) != nil && w.node(em).Opts.Relay != nil {
+			if m.re.Err != nil {
+				m.bad = true
+			}
+			if !f.More() {
+				delete(me.open, f.ID)
+			}
+			return
+		}
 		if real {
 			// C02 conformance: the carried checksum equals the independently computed
 			// running CRC over all argument bytes up to and including this fragment
@@ -174,7 +192,10 @@ func (o *wireOracle) frame(tf *TapFrame) {
 				default:
 					w.violate("C01", "malformed-message", "%s: %s: %v", where, f, m.re.Err)
 				}
-				delete(me.open, f.ID)
+				m.bad = true
+				if !f.More() {
+					delete(me.open, f.ID)
+				}
 				return
 			}
 		}
